@@ -72,6 +72,10 @@ ML_SEQ_DONORS = ['[\n        c,\n  d, e,\n    f\n]', '[\n        c,  # one\n    
                  '(\n            c,\n     d(1,\n  2), e,\n        f\n)']
 
 
+def _edump(e):
+    return sdump(e) if isinstance(e, ast.AST) else repr(e)
+
+
 class Sweep:
     def __init__(self, name, src, payload):
         from fst import FST
@@ -268,6 +272,8 @@ class Sweep:
                 v = getattr(f.a, fld, None)
                 if isinstance(v, list) and v and all(isinstance(e, ast.AST) or e is None for e in v):
                     out.append((p, fld, len(v)))
+                elif isinstance(v, list) and v and fld == 'names' and f.a.__class__.__name__ in ('Global', 'Nonlocal'):
+                    out.append((p, fld, len(v)))     # identifier lists are sliceable too
         return out
 
     def sweep_slices(self, root, quick, rnd):
@@ -280,6 +286,8 @@ class Sweep:
                 self.slice_step(path, fld, n, i, j, 'self')
                 if j > i:
                     self.slice_step(path, fld, n, i, j, 'cut')
+                    if 'C08' in self.props or 'C01' in self.props:
+                        self.slice_step(path, fld, n, i, j, 'cut_putback')
             for i in sorted({0, n // 2, n}):
                 self.slice_step(path, fld, n, i, i, 'insert_copy_first')
             # multi-line donors whose own indentation is irregular (re-indentation of the put code)
@@ -299,7 +307,7 @@ class Sweep:
             return
         self.ev += 1
         src0, d0 = root.src, dump(root.a)
-        old = [sdump(e) for e in getattr(node.a, fld)]
+        old = [_edump(e) for e in getattr(node.a, fld)]
         cls0 = node.a.__class__
         slot = f'{cls0.__name__}.{fld}'
         desc = {'program': self.name, 'path': [list(p) for p in path], 'op': f'{kind} {fld}[{i}:{j}]', 'seq': None,
@@ -317,6 +325,13 @@ class Sweep:
             elif kind == 'cut':
                 node.get_slice(i, j, fld, cut=True)
                 exp = old[:i] + old[j:]
+            elif kind == 'cut_putback':
+                piece = node.get_slice(i, j, fld, cut=True)
+                node2_ = follow(root, path) if path else root
+                if not node2_ or node2_.a.__class__ is not cls0:
+                    return      # the cut normalised the container away: nothing to put back into
+                node2_.put_slice(piece, i, i, fld)
+                exp = old
             elif kind.startswith('donor_ml'):
                 code = ML_SEQ_DONORS[int(kind[8:])]
                 piece = self.FST(code)
@@ -339,6 +354,9 @@ class Sweep:
         key = f'slice@{slot}:{self.name}:{path}:{kind}[{i}:{j}]'
         if v:
             self.fail('C01', key, f'after {desc["op"]}: {v}', **desc, src_after=root.src[:400])
+            if kind in ('self', 'cut_putback'):
+                self.fail('C08', key + ':c01', f'{desc["op"]} (a slice put back where it was taken from): the tree no longer '
+                          f'equals what its source denotes: {v}', **desc, src_after=root.src[:400])
             self.post_edit(root, key, desc['op'], v)
             return
         self.post_edit(root, key, desc['op'])
@@ -347,12 +365,12 @@ class Sweep:
                 node2 = follow(root, path) if path else root
                 if node2.a.__class__ is not cls0:
                     return  # the container was normalised into another node kind - not judged here
-                got = [sdump(e) for e in getattr(node2.a, fld)]
+                got = [_edump(e) for e in getattr(node2.a, fld)]
             except Exception:
                 return  # the container itself was normalised away (e.g. emptied block) - not judged here
             norm = lambda xs: [x.replace('Store()', 'Load()').replace('Del()', 'Load()') if x else x for x in xs]
             if norm(got) != norm(exp):
-                self.fail('C03' if kind != 'self' else 'C08', key,
+                self.fail('C03' if kind not in ('self', 'cut_putback') else 'C08', key,
                           f'{desc["op"]}: field is not old[:i] + new + old[j:] (got {len(got)} elements, expected '
                           f'{len(exp)})', **desc, src_after=root.src[:400])
 
